@@ -70,7 +70,10 @@ GOps == %(gops)s
 IsSetup(o) == o.op \\in %(setup)s
 NSetup(h) == Cardinality({i \\in 1..Len(h) : IsSetup(h[i])})
 \\* setup operations only as a prefix of the history
-GNext == \\E o \\in GOps : (IsSetup(o) => NSetup(hist) = Len(hist)) /\\ Do(o) /\\ hist' = Append(hist, o)
+\\* histories are cut in the action itself, so that no successor of a boundary state is generated only to be discarded
+GNext == \\E o \\in GOps : /\\ (IsSetup(o) => NSetup(hist) = Len(hist))
+                        /\\ (IsSetup(o) \\/ Len(hist) - NSetup(hist) < %(depth)d)
+                        /\\ Do(o) /\\ hist' = Append(hist, o)
 Emit == PrintT("EDGE " \\o ToJson([hist |-> hist', pre |-> Proj, ret |-> ret', st |-> Proj']))
 GView == AbsView
 Bound == Len(hist) - NSetup(hist) <= %(depth)d /\\ NSetup(hist) <= %(maxsetup)d
